@@ -172,6 +172,11 @@ impl GCoord {
 		let [g, a, v, c, t] = s.as_list()? else { return Err("coord arity".into()) };
 		Ok(GCoord { g: g.as_string()?, a: a.as_string()?, v: v.as_string()?, c: as_opt_str(c)?, t: t.as_string()? })
 	}
+	/// the harness' own printer of the textual form `group:artifact:type[:classifier]:version` (the generator never renders its
+	/// inputs with the `Display` of the code under test)
+	fn text(&self) -> String {
+		match &self.c { Some(c) => format!("{}:{}:{}:{}:{}", self.g, self.a, self.t, c, self.v), None => format!("{}:{}:{}:{}", self.g, self.a, self.t, self.v) }
+	}
 	fn real(&self) -> MavenCoord {
 		MavenCoord { group: self.g.clone(), artifact: self.a.clone(), version: self.v.clone(), classifier: self.c.clone(), type_: self.t.clone() }
 	}
@@ -669,7 +674,7 @@ fn exec(op: &str, args: &[Sexp]) -> Ans {
 		}
 		("oracle-found-rt", [f]) => {
 			let (n, m, c, sc) = tr!(found_from_sexp(f));
-			if !no_char(&c, ':') || c.real().to_string().contains(" @ ") { return Ans::out_of_domain(); }
+			if !no_char(&c, ':') || c.text().contains(" @ ") { return Ans::out_of_domain(); }
 			let fd = FoundDependency { resolver: Resolver { name: Cow::Owned(n), maven: Cow::Owned(m.clone()) }, coord: c.real(), scope: sc };
 			let text = fd.to_string();
 			match FoundDependency::try_from(text.as_str()) {
@@ -975,9 +980,16 @@ fn gen_version(r: &mut Rng) -> String {
 		1 => format!("v-{}-{}", rand_text(r, &["20230909.205406", "2023090.9205406", "20230909x205406", "2023.0909205406", "20230909.20540", "a0230909.205406"], 1), rand_text(r, &["1", "28", "x", "", "2x"], 1)),
 		2 => rand_text(r, &["-", "1", "20230909.205406", "12345678.123456", ".", "a"], 6),
 		3 => "1.0-SNAPSHOT".into(),
+		// two or more dots between the hyphens: the stamp is split at its FIRST dot (mutation sweep, coord.rs `split_once('.')`)
+		4 => format!("1.{}-{}-{}", r.below(3), r.pick(&STAMPS_DOTS), r.pick(&["1", "28", "007"])),
 		_ => gen_field(r, false),
 	}
 }
+
+/// stamps around `\d{8}.\d{6}` with no, one, two and three dots, dots at the ends, and the digit groups of the right length on
+/// either side of the first / the last dot
+const STAMPS_DOTS: [&str; 14] = ["20230713.025619", "20230713025619", "20230713.0256.19", "2023.0713.025619", "20230713.025619.", ".20230713.025619",
+	"20230713..025619", "20230713.025619.123456", "12345678.20230713.025619", "20230713.02561.9", "2.0230713.025619", "20230713.025.619.1", "........", "20230713.025619.0"];
 
 fn gen_coord(r: &mut Rng, wild: bool) -> GCoord {
 	GCoord {
@@ -1112,6 +1124,18 @@ fn gen(r: &mut Rng, tier: Tier, out: &mut Out) {
 			out.op("coord-parse", &[Sexp::str(&s)]);
 		}
 	}
+	// timestamped versions: every stamp spelling (dots!) x build number spelling; `found-print` shows the base version in the URL
+	for stamp in STAMPS_DOTS {
+		for build in ["1", "28", "", "x"] {
+			for prefix in ["1.0", "a-1.0", ""] {
+				let c = GCoord { g: "org.example".into(), a: "lib".into(), v: format!("{prefix}-{stamp}-{build}"), c: None, t: "jar".into() };
+				out.stats.hit("coord:stamp-family");
+				out.op("found-print", &[Sexp::list(vec![Sexp::str("repo"), Sexp::str("invalid://h.example/m"), c.to_sexp(), Sexp::tag("compile")])]);
+				out.op("coord-print", &[c.to_sexp()]);
+				out.op("oracle-coord-rt", &[c.to_sexp()]);
+			}
+		}
+	}
 	let rounds = if thorough { 20000 } else { 700 };
 	for i in 0..rounds {
 		let wild = i % 4 == 0;
@@ -1119,7 +1143,7 @@ fn gen(r: &mut Rng, tier: Tier, out: &mut Out) {
 		out.stats.hit(if wild { "coord:wild" } else { "coord:plain" });
 		out.op("coord-print", &[c.to_sexp()]);
 		out.op("oracle-coord-rt", &[c.to_sexp()]);
-		let mut text = c.real().to_string();
+		let mut text = c.text();
 		if r.chance(1, 3) {
 			// malformed / perturbed strings
 			match r.below(4) {
@@ -1137,7 +1161,7 @@ fn gen(r: &mut Rng, tier: Tier, out: &mut Out) {
 		let f = Sexp::list(vec![Sexp::str("repo"), Sexp::str(&maven), c.to_sexp(), Sexp::tag(sc)]);
 		out.op("found-print", &[f.clone()]);
 		out.op("oracle-found-rt", &[f]);
-		let mut ftext = format!("{}:{} @ {}", c.real(), sc, maven);
+		let mut ftext = format!("{}:{} @ {}", c.text(), sc, maven);
 		if r.chance(1, 3) {
 			match r.below(5) {
 				0 => ftext = ftext.replacen(" @ ", "@", 1),
